@@ -294,7 +294,7 @@ pub fn gen_cfg(seed: u64, case: u64, tier: &str, mode: u8) -> Cfg {
     // corpus (C10): one high-dimensional model (any reduction that is split across the thread pool for long vectors would make the result
     // depend on the number of workers), few draws, more workers than chains
     let mut big_dim = None;
-    if mode == 0 && case == 5 { num_chains = 2; num_cores = 4; num_tune = 3; num_draws = 2; script = vec![]; big_dim = Some(70_000usize); }
+    if mode == 0 && (case == 5 || case == 6) { num_chains = 3; num_cores = if case == 5 { 1 } else { 4 }; num_tune = 8; num_draws = 4; script = vec![]; big_dim = Some(70_000usize); }
     // C13 storage failure of the async Zarr writer: whole chunks only (chunk size 3), so that the failing writes are still queued at the end
     if mode == 3 && case % 8 == 7 { num_tune = 6; num_draws = 6; script = vec![]; }
     let total = num_tune + num_draws;
